@@ -399,8 +399,13 @@ where
         }
 
         match self.get_data_type(from)? {
-            GarnishDataType::Invalid => todo!(),
-            GarnishDataType::Custom => todo!(),
+            GarnishDataType::Invalid => Err(DataError::from(format!("No text representation for the value at {:?}", from)))?,
+            GarnishDataType::Custom => {
+                let s = format!("{:?}", self.get_custom(from)?);
+                for c in s.chars() {
+                    self.add_to_char_list(c)?;
+                }
+            }
             GarnishDataType::Unit => {
                 self.add_to_char_list('(')?;
                 self.add_to_char_list(')')?;
